@@ -7,7 +7,7 @@
    third-party decoder returned for it), so the comparison covers openGemini's own framing and the raw layout fed to
    the compressor. *)
 From Coq Require Import ZArith List Bool.
-From OG Require Import C07.Model C07.ModelRows.
+From OG Require Import C07.Model C07.ModelRows C07.ModelFile.
 Import ListNotations.
 Open Scope Z_scope.
 
@@ -112,3 +112,19 @@ Definition check_record (r : rrecord) (real : list Z) : Z :=
   (if record_ok r then 0 else 1) +
   (if list_eqb (e_record r) real then 0 else 2) +
   (match d_record real with Some (r', []) => if list_eqb (e_record r') real then 0 else 4 | _ => 4 end).
+
+(* chunk meta: 1 a field is out of range / the entry counts do not match the segment count; 2 e_chunk_meta differs
+   from the real bytes; 4 the model decoder does not return it from the real bytes; 8 the recorded offsets are not the
+   builder's layout (per column a 4-byte checksum then its segments back to back, covering exactly [offset, offset+size)) *)
+Definition check_cm (m : chunk_meta) (real : list Z) : Z :=
+  (if chunk_meta_ok m then 0 else 1) +
+  (if list_eqb (e_chunk_meta m) real then 0 else 2) +
+  (match d_chunk_meta real with Some (m', []) => if list_eqb (e_chunk_meta m') real then 0 else 4 | _ => 4 end) +
+  (if chunk_layout_ok m then 0 else 8).
+
+(* trailer: the 14 fixed fields; 2 their encoding is not the head of the real trailer bytes; 4 the model decoder does
+   not return them from the real bytes *)
+Definition check_trailer (vs : list Z) (real : list Z) : Z :=
+  (if (length vs =? length trailer_pattern)%nat && words_ok vs then 0 else 1) +
+  (if list_eqb (e_fields trailer_pattern vs) (firstn (length (e_fields trailer_pattern vs)) real) then 0 else 2) +
+  (match d_fields trailer_pattern real with Some (vs', _) => if list_eqb vs' vs then 0 else 4 | None => 4 end).
